@@ -30,6 +30,23 @@ theorem chkRun_ok (dest old new) (p : List Call) : ∀ k, (chkRun dest old new k
     simp only [chkStep, Bool.and_eq_true] at this
     exact this.1.1.1
 
+theorem mem_addHist_of_mem (o : Option Nat) (h : List Nat) (i : Nat) (hi : i ∈ h) : i ∈ addHist o h := by
+  unfold addHist
+  cases o with
+  | none => exact hi
+  | some j =>
+    simp only []
+    split
+    · exact hi
+    · exact List.mem_cons_of_mem _ hi
+
+theorem mem_addHist_self (h : List Nat) (i : Nat) : i ∈ addHist (some i) h := by
+  unfold addHist
+  simp only []
+  split
+  · rename_i hc; simpa using hc
+  · exact List.mem_cons_self
+
 theorem chkRun_hist (dest old new) (p : List Call) : ∀ k i, i ∈ k.hist → i ∈ (chkRun dest old new k p).hist := by
   induction p with
   | nil => intro k i h; exact h
@@ -37,8 +54,8 @@ theorem chkRun_hist (dest old new) (p : List Call) : ∀ k i, i ∈ k.hist → i
     intro k i h
     simp only [chkRun, List.foldl_cons] at *
     apply ih
-    simp only [chkStep, List.mem_append]
-    exact Or.inr h
+    simp only [chkStep]
+    exact mem_addHist_of_mem _ _ _ h
 
 theorem chkRun_absent (dest old new) (p : List Call) : ∀ k, k.absent = true → (chkRun dest old new k p).absent = true := by
   induction p with
@@ -71,7 +88,8 @@ theorem chkStep_wf (dest old new k c) : ChkWF dest (chkStep dest old new k c) :=
   constructor
   · intro i h
     have h' : lookup (step k.s c).names dest = some i := h
-    simp [chkStep, h']
+    simp only [chkStep, h']
+    exact mem_addHist_self _ _
   · intro h
     have h' : lookup (step k.s c).names dest = none := h
     simp [chkStep, h']
@@ -113,5 +131,105 @@ theorem view_nondir (inodes : List Inode) (names : List (Path × Nat)) (data : N
     (i : Nat) (n : Inode) (h1 : lookup names dest = some i) (h2 : inodes[i]? = some n) (h3 : n.kind ≠ .dir) :
     view inodes names data dest = some (nodeOf n (data i), []) := by
   simp [view, h1, h2, h3]
+
+/-! ### The canonical publish sequence on the concrete world `baseFS` -/
+
+/-- State while the temp file is being written: data `d` so far. -/
+def midFS (old : Option (Content × Nat)) (fd perm : Nat) (d : Content) (cl : Bool) : FS :=
+  match old with
+  | none =>
+    { inodes := [dirInode, dirInode, { kind := .file, mode := perm, data := d, target := "", clean := cl }],
+      names := [(tmpF, 2), (["R", "dst"], 0), (["R", "tmp"], 1)], fds := [(fd, 2)] }
+  | some (c, m) =>
+    { inodes := [dirInode, dirInode, { kind := .file, mode := m, data := c, target := "", clean := true },
+                 { kind := .file, mode := perm, data := d, target := "", clean := cl }],
+      names := [(tmpF, 3), (["R", "dst", "f"], 2), (["R", "dst"], 0), (["R", "tmp"], 1)], fds := [(fd, 3)] }
+
+def midChk (old : Option (Content × Nat)) (fd perm : Nat) (d : Content) (cl : Bool) : Chk :=
+  { s := midFS old fd perm d cl, hist := match old with | none => [] | some _ => [2],
+    absent := old.isNone, ok := true }
+
+theorem mid_start (old fd perm) (new : Obs) :
+    chkRun destF (baseOld old) new (chkInit (baseFS old) destF (baseOld old) new)
+      [.openC tmpF true true false 0o600 (some fd), .fchmod fd perm] = midChk old fd perm [] false := by
+  cases old with
+  | none =>
+    simp [chkRun, chkInit, chkStep, step, exec, baseFS, baseOld, midChk, midFS, destF, tmpF, lookup, List.lookup,
+      parentErr, kindAt, inodeAt, dirInode, setInode, addHist, allowed, vview, view, goodIno, umasked, List.modify]
+  | some cm =>
+    obtain ⟨c, m⟩ := cm
+    simp [chkRun, chkInit, chkStep, step, exec, baseFS, baseOld, midChk, midFS, destF, tmpF, lookup, List.lookup,
+      parentErr, kindAt, inodeAt, dirInode, setInode, addHist, allowed, vview, view, goodIno, umasked, List.modify, nodeOf, vdata]
+
+theorem mid_write (old fd perm) (new : Obs) (d : Content) (cl : Bool) (g : Seg) :
+    chkStep destF (baseOld old) new (midChk old fd perm d cl) (.write fd g) = midChk old fd perm (app d g) false := by
+  cases old with
+  | none =>
+    simp [chkStep, step, exec, baseOld, midChk, midFS, destF, tmpF, lookup, List.lookup,
+      inodeAt, dirInode, setInode, addHist, allowed, vview, view, List.modify]
+  | some cm =>
+    obtain ⟨c, m⟩ := cm
+    simp [chkStep, step, exec, baseOld, midChk, midFS, destF, tmpF, lookup, List.lookup,
+      inodeAt, dirInode, setInode, addHist, allowed, vview, view, goodIno, List.modify, nodeOf, vdata]
+
+theorem mid_writes (old fd perm) (new : Obs) (chunks : List Seg) : ∀ (d : Content) (cl : Bool), chunks ≠ [] ∨ cl = false →
+    chkRun destF (baseOld old) new (midChk old fd perm d cl) (chunks.map (.write fd)) =
+      midChk old fd perm (chunks.foldl app d) false := by
+  induction chunks with
+  | nil => intro d cl h; cases h with | inl h => exact absurd rfl h | inr h => subst h; rfl
+  | cons g t ih =>
+    intro d cl _
+    simp only [List.map_cons, chkRun, List.foldl_cons, mid_write]
+    exact ih (app d g) false (Or.inr rfl)
+
+theorem mid_finish (old fd perm) (d : Content) :
+    (chkRun destF (baseOld old) (some (.file d, [])) (midChk old fd perm d false)
+      [.fsync fd, .close fd, .rename tmpF destF]).ok = true := by
+  cases old with
+  | none =>
+    simp [chkRun, chkStep, step, exec, baseOld, midChk, midFS, destF, tmpF, lookup, List.lookup,
+      parentErr, kindAt, inodeAt, dirInode, setInode, addHist, allowed, vview, view, goodIno, List.modify, nodeOf, vdata,
+      below, unbind, moveNames, hasChild]
+  | some cm =>
+    obtain ⟨c, m⟩ := cm
+    simp [chkRun, chkStep, step, exec, baseOld, midChk, midFS, destF, tmpF, lookup, List.lookup,
+      parentErr, kindAt, inodeAt, dirInode, setInode, addHist, allowed, vview, view, goodIno, List.modify, nodeOf, vdata,
+      below, unbind, moveNames, hasChild]
+
+theorem mid_finish_nosync (old fd perm) (d : Content) :
+    (chkRun destF (baseOld old) (some (.file d, [])) (midChk old fd perm d false)
+      [.close fd, .rename tmpF destF]).ok = false := by
+  cases old with
+  | none =>
+    simp [chkRun, chkStep, step, exec, baseOld, midChk, midFS, destF, tmpF, lookup, List.lookup,
+      parentErr, kindAt, inodeAt, dirInode, setInode, addHist, allowed, vview, view, goodIno, List.modify, nodeOf, vdata,
+      below, unbind, moveNames, hasChild]
+  | some cm =>
+    obtain ⟨c, m⟩ := cm
+    simp [chkRun, chkStep, step, exec, baseOld, midChk, midFS, destF, tmpF, lookup, List.lookup,
+      parentErr, kindAt, inodeAt, dirInode, setInode, addHist, allowed, vview, view, goodIno, List.modify, nodeOf, vdata,
+      below, unbind, moveNames, hasChild]
+
+/-- The volatile state after the sequence without fsync: the destination names the new, never-synced inode. -/
+def endNoSyncFS (old : Option (Content × Nat)) (perm : Nat) (d : Content) : FS :=
+  match old with
+  | none =>
+    { inodes := [dirInode, dirInode, { kind := .file, mode := perm, data := d, target := "", clean := false }],
+      names := [(destF, 2), (["R", "dst"], 0), (["R", "tmp"], 1)], fds := [] }
+  | some (c, m) =>
+    { inodes := [dirInode, dirInode, { kind := .file, mode := m, data := c, target := "", clean := true },
+                 { kind := .file, mode := perm, data := d, target := "", clean := false }],
+      names := [(destF, 3), (["R", "dst"], 0), (["R", "tmp"], 1)], fds := [] }
+
+theorem run_mid_nosync (old fd perm) (d : Content) :
+    run (midFS old fd perm d false) [.close fd, .rename tmpF destF] = endNoSyncFS old perm d := by
+  cases old with
+  | none =>
+    simp [run, step, exec, midFS, endNoSyncFS, destF, tmpF, lookup, List.lookup,
+      parentErr, kindAt, inodeAt, dirInode, below, unbind, moveNames, hasChild]
+  | some cm =>
+    obtain ⟨c, m⟩ := cm
+    simp [run, step, exec, midFS, endNoSyncFS, destF, tmpF, lookup, List.lookup,
+      parentErr, kindAt, inodeAt, dirInode, below, unbind, moveNames, hasChild]
 
 end PB.FsAtomic
